@@ -30,7 +30,12 @@ def runs(draw, tier):
     n = sc["n"]
     polarised = draw(st.integers(0, 3)) == 0
     if polarised:
-        sc["am"]["b"] = [draw(st.sampled_from([-1.0, 1.0])) * draw(st.floats(12.0, 25.0, allow_nan=False, width=64)) for _ in range(n)]    # strongly polarised state
+        sign_mode = draw(st.sampled_from(["neg", "neg", "pos", "mixed"]))     # all biases negative: every unnormalised amplitude but one is tiny
+        sc["am"]["b"] = [{"neg": -1.0, "pos": 1.0}.get(sign_mode, draw(st.sampled_from([-1.0, 1.0]))) * draw(st.floats(12.0, 25.0, allow_nan=False, width=64)) for _ in range(n)]    # strongly polarised state
+        if draw(st.booleans()):
+            # ... and nothing that compensates the visible biases: small weights and hidden biases, so the unnormalised amplitudes themselves are tiny
+            shrink = lambda x: [shrink(y) for y in x] if isinstance(x, list) else x / (1.0 + abs(x))
+            sc["am"]["W"], sc["am"]["c"] = shrink(sc["am"]["W"]), shrink(sc["am"]["c"])
         sc["polarised"] = True
     interesting = draw(st.integers(0, 2)) > 0   # construct (not filter) the class the rule calls non-trivial
     if interesting:
@@ -46,8 +51,11 @@ def runs(draw, tier):
     rows = []
     for i in range(N):
         b = "Z" * n if (t == "positive" or i == 0) else draw(st.sampled_from(allb))
+        if polarised and t != "positive" and n >= 2 and i == 1:
+            j = draw(st.integers(0, n - 1))
+            b = "Z" * j + draw(st.sampled_from("XY")) + "Z" * (n - 1 - j)       # exactly one rotated site: the other sites keep their (tiny) weights
         rows.append({"basis": b, "u": draw(U01)})
-        if draw(st.integers(0, 11)) == 0 or (polarised and draw(st.integers(0, 3)) > 0):
+        if (polarised and t != "positive" and n >= 2 and i == 1) or draw(st.integers(0, 11)) == 0 or (polarised and draw(st.integers(0, 3)) > 0):
             rows[-1]["rare"] = True        # the least likely outcome in that basis (data need not be typical of the model)
     if draw(st.integers(0, 19)) == 0:
         nbs = draw(st.sampled_from([129, 150, 200, 300]))      # many negative-phase chains (drawn with replacement from the data)
@@ -248,7 +256,7 @@ def check(case):
     nt = (nbs != case["pbs"]) and tail and case["k"] >= 1 and followed >= 2 and (t == "positive" or rotated_seen) and gen.all_biases_nonzero(sc)
     return {"nontrivial": nt, "excluded": excluded,
             "labels": [f"type={t}"] + (["neg!=pos"] if nbs != case["pbs"] else []) + (["tail_batch"] if tail else []) + ([f"k={case['k']}"]) +
-                      (["scheduler=" + case.get("sched_kind", "step1")] if case["gamma"] is not None else []) + ([f"starting_epoch={se}"] if se != 1 else []) + (["multi_epoch"] if case["epochs"] > 1 else []) + (["two_stage"] if case.get("stage2_lr") is not None else []) + ["opt_args=" + case.get("opt_args", "none")]}
+                      (["scheduler=" + case.get("sched_kind", "step1")] if case["gamma"] is not None else []) + (["polarised"] if sc.get("polarised") else []) + ([f"starting_epoch={se}"] if se != 1 else []) + (["multi_epoch"] if case["epochs"] > 1 else []) + (["two_stage"] if case.get("stage2_lr") is not None else []) + ["opt_args=" + case.get("opt_args", "none")]}
 
 
 SUBCHECKS = [Sub("cd_update", check, strategy=lambda tier: runs(tier), quick=320, thorough=6000)]
